@@ -36,22 +36,23 @@ Proof.
 Qed.
 
 (* what a successful patch_offset_array went through; the literal loop's result is the specification's *)
-Lemma poa_inv views t offs data T avail e_off maxgid T' os ds :
-  patch_offset_array views t offs data T avail e_off maxgid = inr (T', os, ds) -> 0 <= maxgid ->
+Lemma poa_gen_inv views t offs chk data T avail e_off maxgid T' os ds :
+  patch_offset_array_gen views t offs chk data T avail e_off maxgid = inr (T', os, ds) -> 0 <= maxgid ->
+  (ascending chk = true -> ascending offs = true) ->
   exists m total, dedup views t = inr m /\ choose_type T avail total = inr T' /\
     (last (map fst m) 0 <= maxgid) /\ ascending offs = true /\
     (Forall (fun gd => 0 <= fst gd) m ->
      build_loop (Z.to_nat (maxgid + 1)) 0 m offs data T' e_off 0 = inr (os, ds)).
 Proof.
-  unfold patch_offset_array. destruct (dedup views t) as [[? ?]|m] eqn:D; [discriminate|].
+  unfold patch_offset_array_gen. destruct (dedup views t) as [[? ?]|m] eqn:D; [discriminate|].
   destruct (retained_total _ offs e_off 0) as [?|total0]; cbn [bind]; [discriminate|].
   match goal with |- context [choose_type T avail ?tt] => set (total := tt) end.
   destruct (choose_type T avail total) as [?|T0] eqn:C; cbn [bind]; [discriminate|].
   destruct (last (map fst m) 0 >? maxgid) eqn:L; [discriminate|].
-  destruct (ascending offs) eqn:A; cbn [negb]; [|discriminate].
+  destruct (ascending chk) eqn:A0; cbn [negb]; [|discriminate].
   match goal with |- context [build_runs ?fu ?a ?b ?c offs data T0 e_off 0 [] []] =>
     destruct (build_runs fu a b c offs data T0 e_off 0 [] []) as [?|[os0 ds0]] eqn:B end; cbn [bind]; [discriminate|].
-  intros H Hm; inversion H; subst. exists m, total. repeat split; auto; [lia|].
+  intros H Hm HA; inversion H; subst. pose proof (HA eq_refl) as A. exists m, total. repeat split; auto; [lia|].
   intros Hnn. assert (HL : last (map fst m) 0 <= maxgid) by lia.
   pose proof (gm_ok_keys_le _ _ (dedup_ok _ _ _ D) HL) as Hle.
   assert (Hk : Forall (fun gd => 0 <= fst gd <= maxgid) m).
@@ -61,15 +62,16 @@ Proof.
   rewrite Z.sub_0_r in BL. exact BL.
 Qed.
 
-Lemma poa_exact views t offs data T avail e_off maxgid T' os ds :
-  patch_offset_array views t offs data T avail e_off maxgid = inr (T', os, ds) -> 0 <= maxgid ->
+Lemma poa_gen_exact views t offs chk data T avail e_off maxgid T' os ds :
+  patch_offset_array_gen views t offs chk data T avail e_off maxgid = inr (T', os, ds) -> 0 <= maxgid ->
+  (ascending chk = true -> ascending offs = true) ->
   exists m, dedup views t = inr m /\
    (Forall (fun gd => 0 <= fst gd) m ->
     forall g, 0 <= g <= maxgid ->
       exists a b s, nthZ os g = Some a /\ nthZ os (g + 1) = Some b /\
                     new_slice T' m offs data g = Some s /\ slice ds a b = Some s).
 Proof.
-  intros H Hm. apply poa_inv in H; [|exact Hm]. destruct H as [m [total [D [_ [_ [_ B0]]]]]].
+  intros H Hm HA. apply poa_gen_inv in H; [|exact Hm|exact HA]. destruct H as [m [total [D [_ [_ [_ B0]]]]]].
   exists m. split; [exact D|]. intros Hnn g Hg. specialize (B0 Hnn).
   destruct (build_loop_spec _ _ _ _ _ _ _ _ _ _ B0 (dedup_ok _ _ _ D) Hnn) as [sls [L [-> [-> P]]]].
   assert (Hi : (Z.to_nat g < length sls)%nat) by lia.
@@ -87,13 +89,14 @@ Proof.
   - pose proof (psums_slice sls 0 _ a b s Ha Hb Es) as Q. now rewrite !Z.sub_0_r in Q.
 Qed.
 
-Lemma poa_offsets views t offs data T avail e_off maxgid T' os ds :
-  patch_offset_array views t offs data T avail e_off maxgid = inr (T', os, ds) -> 0 <= maxgid ->
+Lemma poa_gen_offsets views t offs chk data T avail e_off maxgid T' os ds :
+  patch_offset_array_gen views t offs chk data T avail e_off maxgid = inr (T', os, ds) -> 0 <= maxgid ->
+  (ascending chk = true -> ascending offs = true) ->
   (forall m, dedup views t = inr m -> Forall (fun gd => 0 <= fst gd) m) ->
   ascending os = true /\ len os = maxgid + 2 /\ nthZ os 0 = Some 0 /\ last os 0 = len ds /\
   Forall (fun x => off_fits T' x = true) os.
 Proof.
-  intros H Hm Hnn. apply poa_inv in H; [|exact Hm]. destruct H as [m [total [D [_ [_ [_ B0]]]]]].
+  intros H Hm HA Hnn. apply poa_gen_inv in H; [|exact Hm|exact HA]. destruct H as [m [total [D [_ [_ [_ B0]]]]]].
   specialize (B0 (Hnn _ D)).
   pose proof (build_loop_fits _ _ _ _ _ _ _ _ _ _ B0) as F.
   destruct (build_loop_spec _ _ _ _ _ _ _ _ _ _ B0 (dedup_ok _ _ _ D) (Hnn _ D)) as [sls [L [-> [-> P]]]].
@@ -104,6 +107,32 @@ Proof.
   - rewrite psums_last. lia.
   - exact F.
 Qed.
+
+
+(* the glyf / gvar instances check all offsets *)
+Lemma poa_inv views t offs data T avail e_off maxgid T' os ds :
+  patch_offset_array views t offs data T avail e_off maxgid = inr (T', os, ds) -> 0 <= maxgid ->
+  exists m total, dedup views t = inr m /\ choose_type T avail total = inr T' /\
+    (last (map fst m) 0 <= maxgid) /\ ascending offs = true /\
+    (Forall (fun gd => 0 <= fst gd) m ->
+     build_loop (Z.to_nat (maxgid + 1)) 0 m offs data T' e_off 0 = inr (os, ds)).
+Proof. intros H Hm. eapply poa_gen_inv; eauto. Qed.
+
+Lemma poa_exact views t offs data T avail e_off maxgid T' os ds :
+  patch_offset_array views t offs data T avail e_off maxgid = inr (T', os, ds) -> 0 <= maxgid ->
+  exists m, dedup views t = inr m /\
+   (Forall (fun gd => 0 <= fst gd) m ->
+    forall g, 0 <= g <= maxgid ->
+      exists a b s, nthZ os g = Some a /\ nthZ os (g + 1) = Some b /\
+                    new_slice T' m offs data g = Some s /\ slice ds a b = Some s).
+Proof. intros H Hm. eapply poa_gen_exact; eauto. Qed.
+
+Lemma poa_offsets views t offs data T avail e_off maxgid T' os ds :
+  patch_offset_array views t offs data T avail e_off maxgid = inr (T', os, ds) -> 0 <= maxgid ->
+  (forall m, dedup views t = inr m -> Forall (fun gd => 0 <= fst gd) m) ->
+  ascending os = true /\ len os = maxgid + 2 /\ nthZ os 0 = Some 0 /\ last os 0 = len ds /\
+  Forall (fun x => off_fits T' x = true) os.
+Proof. intros H Hm Hnn. eapply poa_gen_offsets; eauto. Qed.
 
 Lemma choose_type_spec T avail total T' : choose_type T avail total = inr T' ->
   (total <= ot_max T /\ T' = T) \/
@@ -192,14 +221,19 @@ Proof.
   apply gm_insert_all_perm; [now apply Permutation_concat | now apply A].
 Qed.
 
-Lemma poa_perm t views views' offs data T avail e_off maxgid r : Permutation views views' -> views_agree t views ->
-  patch_offset_array views t offs data T avail e_off maxgid = inr r ->
-  patch_offset_array views' t offs data T avail e_off maxgid = inr r.
+Lemma poa_gen_perm t views views' offs chk data T avail e_off maxgid r : Permutation views views' -> views_agree t views ->
+  patch_offset_array_gen views t offs chk data T avail e_off maxgid = inr r ->
+  patch_offset_array_gen views' t offs chk data T avail e_off maxgid = inr r.
 Proof.
-  intros P A H. unfold patch_offset_array in *.
+  intros P A H. unfold patch_offset_array_gen in *.
   destruct (dedup views t) as [[? ?]|m] eqn:D; [discriminate|].
   rewrite (dedup_perm _ _ _ _ P A D). exact H.
 Qed.
+
+Lemma poa_perm t views views' offs data T avail e_off maxgid r : Permutation views views' -> views_agree t views ->
+  patch_offset_array views t offs data T avail e_off maxgid = inr r ->
+  patch_offset_array views' t offs data T avail e_off maxgid = inr r.
+Proof. unfold patch_offset_array. apply poa_gen_perm. Qed.
 
 Lemma patch_glyf_perm f views views' maxgid r : Permutation views views' -> views_agree T_glyf views ->
   patch_glyf f views maxgid = inr r -> patch_glyf f views' maxgid = inr r.
@@ -261,7 +295,8 @@ Proof.
 Qed.
 
 (* patches agree on shared glyphs, for both modelled glyph-indexed tables *)
-Definition agree_all (views : list gp) : Prop := views_agree T_glyf views /\ views_agree T_gvar views.
+Definition agree_all (views : list gp) : Prop :=
+  views_agree T_glyf views /\ views_agree T_gvar views /\ views_agree T_CFF views /\ views_agree T_CFF2 views.
 
 Lemma patch_gvar_perm f views views' maxgid r : Permutation views views' -> views_agree T_gvar views ->
   patch_gvar f views maxgid = inr r -> patch_gvar f views' maxgid = inr r.
@@ -269,6 +304,21 @@ Proof.
   intros P A H. unfold patch_gvar in *.
   destruct (lookup f T_gvar) as [g|]; [|discriminate].
   destruct (read_gvar g) as [[[[[[[[ax stc] sto] gc] fl] dao] T] offs]|]; [|discriminate].
+  match goal with H : context [patch_offset_array views ?t ?o ?d ?ty ?av ?e ?mg] |- _ =>
+    destruct (patch_offset_array views t o d ty av e mg) as [?|x] eqn:E; [discriminate|] end.
+  rewrite (poa_perm _ _ _ _ _ _ _ _ _ _ P A E). exact H.
+Qed.
+
+Lemma patch_cff_perm cw tg c2 f views views' maxgid r : Permutation views views' -> views_agree tg views ->
+  patch_cff cw tg c2 f views maxgid = inr r -> patch_cff cw tg c2 f views' maxgid = inr r.
+Proof.
+  intros P A H. unfold patch_cff in *.
+  destruct (ift_charstrings_offset f c2) as [cs_off|]; [|discriminate].
+  destruct (lookup f tg) as [tbl|]; [|discriminate].
+  destruct (len tbl <? cs_off); [discriminate|].
+  destruct (uN_at cw _ 0) as [count|]; [|discriminate]. destruct (uN_at 1 _ cw) as [offsz|]; [|discriminate].
+  destruct (len _ <? _); [discriminate|]. destruct ((offsz <? 1) || (4 <? offsz)); [discriminate|].
+  destruct (negb (count =? maxgid + 1)); [discriminate|].
   match goal with H : context [patch_offset_array views ?t ?o ?d ?ty ?av ?e ?mg] |- _ =>
     destruct (patch_offset_array views t o d ty av e mg) as [?|x] eqn:E; [discriminate|] end.
   rewrite (poa_perm _ _ _ _ _ _ _ _ _ _ P A E). exact H.
@@ -283,10 +333,10 @@ Proof.
   unfold handlers.
   apply Forall_cons; [|apply Forall_cons; [|apply Forall_cons; [|apply Forall_cons; [|apply Forall_nil]]]];
     cbn [snd]; unfold handler_stable.
-  - intros; discriminate.
-  - intros; discriminate.
+  - intros f v v' m r P [_ [_ [A _]]] H. eapply patch_cff_perm; eauto.
+  - intros f v v' m r P [_ [_ [_ A]]] H. eapply patch_cff_perm; eauto.
   - intros f v v' m r P [A _] H. eapply patch_glyf_perm; eauto.
-  - intros f v v' m r P [_ A] H. eapply patch_gvar_perm; eauto.
+  - intros f v v' m r P [_ [A _]] H. eapply patch_gvar_perm; eauto.
 Qed.
 
 Lemma run_handlers_perm hs : Forall (fun th => handler_stable (snd th)) hs ->
@@ -386,13 +436,23 @@ Proof.
       apply in_app_or in K. destruct K as [K|K]; [right; eapply Hh; eauto | now left].
 Qed.
 
-Lemma handlers_tags : Forall (fun th => handler_tags (snd th) [T_glyf; T_loca; T_gvar]) handlers.
+Lemma handlers_tags : Forall (fun th => handler_tags (snd th) [T_glyf; T_loca; T_gvar; T_CFF; T_CFF2]) handlers.
 Proof.
   unfold handlers.
   apply Forall_cons; [|apply Forall_cons; [|apply Forall_cons; [|apply Forall_cons; [|apply Forall_nil]]]];
     cbn [snd]; unfold handler_tags.
-  - intros; discriminate.
-  - intros; discriminate.
+  - intros f0 v m adds H t Ht. unfold patch_cff in H.
+    destruct (ift_charstrings_offset f0 _); [|discriminate]. destruct (lookup f0 _); [|discriminate].
+    destruct (len _ <? _); [discriminate|]. destruct (uN_at _ _ 0); [|discriminate]. destruct (uN_at 1 _ _); [|discriminate].
+    destruct (len _ <? _); [discriminate|]. destruct (_ || _); [discriminate|]. destruct (negb _); [discriminate|].
+    destruct (patch_offset_array _ _ _ _ _ _ _ _) as [?|[[T' os] ds]]; cbn [bind] in H; [discriminate|].
+    inversion H; subst. cbn in Ht. cbn. tauto.
+  - intros f0 v m adds H t Ht. unfold patch_cff in H.
+    destruct (ift_charstrings_offset f0 _); [|discriminate]. destruct (lookup f0 _); [|discriminate].
+    destruct (len _ <? _); [discriminate|]. destruct (uN_at _ _ 0); [|discriminate]. destruct (uN_at 1 _ _); [|discriminate].
+    destruct (len _ <? _); [discriminate|]. destruct (_ || _); [discriminate|]. destruct (negb _); [discriminate|].
+    destruct (patch_offset_array _ _ _ _ _ _ _ _) as [?|[[T' os] ds]]; cbn [bind] in H; [discriminate|].
+    inversion H; subst. cbn in Ht. cbn. tauto.
   - intros f0 v m adds H t Ht. unfold patch_glyf in H.
     destruct (lookup f0 T_glyf); [|discriminate]. destruct (read_loca f0) as [[T offs]|]; [|discriminate].
     destruct (patch_offset_array _ _ _ _ _ _ _ _) as [?|[[T' os] ds]]; cbn [bind] in H; [discriminate|].
@@ -408,9 +468,9 @@ Qed.
    none appears and none disappears *)
 Lemma gk_core_other_tables f infos views F x : NoDup (map fst f) ->
   gk_core f infos views = inr F ->
-  x <> T_glyf -> x <> T_loca -> x <> T_gvar -> x <> T_IFT -> x <> T_IFTX -> lookup F x = lookup f x.
+  x <> T_glyf -> x <> T_loca -> x <> T_gvar -> x <> T_CFF -> x <> T_CFF2 -> x <> T_IFT -> x <> T_IFTX -> lookup F x = lookup f x.
 Proof.
-  intros ND H N1 N2 N5 N3 N4. unfold gk_core in H.
+  intros ND H N1 N2 N5 N6 N7 N3 N4. unfold gk_core in H.
   destruct (lookup f T_maxp) as [mx|]; [|cbn in H; discriminate].
   destruct (uN_at 2 mx 4) as [ng|]; [|cbn in H; discriminate]. cbn [bind] in H.
   destruct (ng =? 0); [discriminate|].
@@ -419,7 +479,7 @@ Proof.
   destruct (run_handlers_other _ _ handlers_tags _ _ _ _ _ _ _ R) as [I1 I2].
   destruct (mark_all _ infos) as [?|[ift' iftx']]; cbn [bind] in H; [discriminate|].
   inversion H; subst F. rewrite lookup_copy_unprocessed by assumption.
-  assert (Hx : ~ In x [T_glyf; T_loca; T_gvar]) by (cbn; intros [E|[E|[E|[]]]]; congruence).
+  assert (Hx : ~ In x [T_glyf; T_loca; T_gvar; T_CFF; T_CFF2]) by (cbn; intros [E|[E|[E|[E|[E|[]]]]]]; congruence).
   destruct (memZ x processed) eqn:M.
   { apply memZ_true in M. destruct (I2 x M) as [K|K]; [cbn in K; destruct K as [E|[E|[]]]; congruence | contradiction]. }
   destruct (lookup f x); [reflexivity|].
@@ -632,7 +692,7 @@ Proof.
   destruct (otype_eqb T' T) eqn:Q; cbn [negb]; [|discriminate].
   intros H; inversion H; subst.
   assert (T' = T).
-  { unfold patch_offset_array in E. destruct (dedup views T_glyf) as [[? ?]|m]; [discriminate|].
+  { unfold patch_offset_array, patch_offset_array_gen in E. destruct (dedup views T_glyf) as [[? ?]|m]; [discriminate|].
     destruct (retained_total _ offs _ 0); cbn [bind] in E; [discriminate|].
     match type of E with context [choose_type T [T] ?tt] => destruct (choose_type T [T] tt) as [?|T0] eqn:C end;
       cbn [bind] in E; [discriminate|].
